@@ -356,6 +356,16 @@ func batcherShape(c *Ctx, rule string) {
 		}
 	}
 	c.Ob(rule, name+"/encoded-size", fn.Pos(), okEnc, "packet sizes must be taken from EncodedLen(false), the form used in polling payloads")
+	// every packet is counted: a packet without data still takes its type character (F41)
+	for _, e := range enc {
+		bad := ""
+		for _, g := range GuardTerms(e.Instr) {
+			if strings.Contains(g, ".Data") {
+				bad = g
+			}
+		}
+		c.Ob(rule, name+"/every-packet-counted", e.Pos(), bad == "" && inLoop(e.Instr.Block()), "EncodedLen is added only under `"+bad+"`: a packet without data (an empty message, a zero-length binary attachment) is counted as 0 bytes although it takes 1 byte in the payload — the batch exceeds maxPayload and the server refuses it with 413")
+	}
 	// the remainder is always sent: from entry every path to exit passes a Send unless packets is empty
 	skip, trail := PrunedCanReach(fn, nil, []Assume{{`\(len\(.*\) > 0\)`, true}, {`\(len\(.*\) == 0\)`, false}, {`\(len\(.*\) != 0\)`, true}}, nil, anyCallPred(`\(eio\.ClientTransport\)\.Send`))
 	c.Ob(rule, name+"/remainder-sent", fn.Pos(), !skip, "a path returns without sending the (non-empty) remainder: "+trailString(p, trail))
